@@ -278,6 +278,7 @@ def run_emulator(ctx, build, scratch, tier):
         system = emusrv.System(spec, extra_meta=meta_for(da, db))
         td = system.write(scratch.sub("walk-%s-%s" % (kind, who)))
         pool = ServerPool(exe, td, ["-l"])
+        pool.meta = system.meta if "system" in dir() else None
         try:
             s = pool.local.streams
             sidx = [s[relA], s[relB]]
